@@ -158,6 +158,9 @@ pub struct PanicRec {
     pub message: String,
 }
 
+/// Largest capacity of a bounded data queue taken as sane (the program's own maximum is 16384).
+pub const MAX_SANE_CAPACITY_REQUEST: u64 = 1 << 20;
+
 #[derive(Serialize, Deserialize, Clone, Debug, Default)]
 pub struct OutcomeRec {
     pub steps: u64,
@@ -179,6 +182,8 @@ pub struct OutcomeRec {
     pub aborted: bool,
     #[serde(default)]
     pub backlog_at_stop: Option<(u64, u64)>,
+    #[serde(default)]
+    pub max_capacity_request: u64,
 }
 
 impl From<Outcome> for OutcomeRec {
@@ -206,6 +211,7 @@ impl From<Outcome> for OutcomeRec {
             max_runnable: o.max_runnable,
             aborted: o.aborted,
             backlog_at_stop: o.backlog_at_stop,
+            max_capacity_request: o.max_capacity_request,
         }
     }
 }
@@ -270,6 +276,7 @@ impl ExecResult {
             && self.outcome.panics.is_empty()
             && self.outcome.deadlock.is_none()
             && !self.outcome.budget_exceeded
+            && self.outcome.max_capacity_request <= MAX_SANE_CAPACITY_REQUEST
             && self.outcome.leaked_threads.is_empty()
     }
     /// One-line description of the first disorderly symptom, with a stable "site" for matching.
@@ -296,6 +303,17 @@ impl ExecResult {
         }
         if self.outcome.budget_exceeded {
             return Some(("step-budget".into(), "scheduler".into(), format!("{} steps", self.outcome.steps)));
+        }
+        if self.outcome.max_capacity_request > MAX_SANE_CAPACITY_REQUEST {
+            return Some((
+                "allocation-size".into(),
+                "queue-capacity-request".into(),
+                format!(
+                    "a bounded data queue of {} slots was requested (crossbeam allocates every slot at creation: with packets of ~100 bytes that is {} MiB before a single packet is sent); the limit taken as sane is 2^20 slots",
+                    self.outcome.max_capacity_request,
+                    self.outcome.max_capacity_request / 10_000
+                ),
+            ));
         }
         if !self.outcome.leaked_threads.is_empty() {
             return Some((
